@@ -286,7 +286,8 @@ class LifecycleRun:
     def op_verify_none(self, op, rec):
         """verification against a missing hash is False and costs a dummy verification"""
         ctx = self.ctx
-        for fn, want in ((lambda: self.cc.verify(rec["pw"], None), False), (lambda: self.cc.verify_and_update(rec["pw"], None), (False, None))):
+        for fn, want in ((lambda: self.cc.verify(rec["pw"], None, **self.ckw), False),
+                         (lambda: self.cc.verify_and_update(rec["pw"], None, **self.ckw), (False, None))):
             before = self.counter["n"]
             r = _call(fn)
             ctx.check(r == ("ok", want), "C18", "verify-none-answer", f"-> {r[:2]}, expected {want}")
@@ -304,7 +305,7 @@ class LifecycleRun:
 
         dummy = getattr(CryptContext, "_dummy_secret", "too many secrets")
         for pw in (dummy, dummy.encode("utf-8") if isinstance(dummy, str) else dummy, "too many secrets", ""):
-            for fn, want in ((lambda: self.cc.verify(pw, None), False), (lambda: self.cc.verify_and_update(pw, None), (False, None))):
+            for fn, want in ((lambda: self.cc.verify(pw, None, **self.ckw), False), (lambda: self.cc.verify_and_update(pw, None, **self.ckw), (False, None))):
                 r = _call(fn)
                 ctx.check(r == ("ok", want), "C18", "verify-none-answer", f"password {pw!r} against a missing hash -> {r[:2]}, expected {want}", pw="dummy-secret" if pw else "empty")
         ctx.nontrivial = True
@@ -349,10 +350,13 @@ class LifecycleRun:
         if self.ckw or "plaintext" in self.names or "ldap_plaintext" in self.names:
             return
         new = self.names + [op["scheme"]]
-        r = _call(self.cc.update, schemes=[getattr(x, "name", x) if not isinstance(x, str) else x for x in self.policy["schemes"]] + [op["scheme"]])
+        extra = {"default": op["scheme"]} if op.get("as_default") else {}  # ... and may become the scheme new (and dummy) hashes are made with
+        r = _call(self.cc.update, schemes=[getattr(x, "name", x) if not isinstance(x, str) else x for x in self.policy["schemes"]] + [op["scheme"]], **extra)
         if r[0] == "ok":
             self.names = new
-            self.policy = dict(self.policy, schemes=list(self.policy["schemes"]) + [op["scheme"]])
+            self.policy = dict(self.policy, schemes=list(self.policy["schemes"]) + [op["scheme"]], **extra)
+            if extra:
+                self.default = op["scheme"]
             self.ckw = {"user": "someone"}
             self.fresh = True
             self.countable = False  # (the update rebuilt the records from names: the counting subclass is gone)
